@@ -459,27 +459,8 @@ def check_framing(ctx):
         raise AnalysisError("Subroutine.cstructs / __bytes__ not found")
     ctx.fn("Subroutine.cstructs")
     ctx.fn("Subroutine.__bytes__")
-    md, comp = cstructs_parts(ctx, sub, cs, "C01.F")
-    if md is not None:
-        check_header(ctx, "C01.F", sub, cs, md)
-    if comp is not None:
-        gen = comp.generators[0]
-        it_ok = len(comp.generators) == 1 and not gen.ifs and (A.is_self_attr(gen.iter, "instructions") or A.is_self_attr(gen.iter, "_instructions"))
-        elt_ok = isinstance(comp.elt, ast.Call) and isinstance(comp.elt.func, ast.Attribute) and comp.elt.func.attr == "serialize" and \
-            isinstance(comp.elt.func.value, ast.Name) and isinstance(gen.target, ast.Name) and comp.elt.func.value.id == gen.target.id
-        ctx.check("C01.F", "Subroutine.cstructs:all-instructions-in-order", it_ok and elt_ok,
-                  f"commands are not `[i.serialize() for i in self.instructions]` (unfiltered, in order): {src(comp)}", sub.loc(cs))
-    # __bytes__ : b"".join(bytes(c) for c in self.cstructs)
-    rets = A.returns(by)
-    ok = False
-    if len(rets) == 1 and isinstance(rets[0].value, ast.Call):
-        c = rets[0].value
-        if isinstance(c.func, ast.Attribute) and c.func.attr == "join" and isinstance(c.func.value, ast.Constant) and c.func.value.value == b"" and len(c.args) == 1:
-            g = c.args[0]
-            if isinstance(g, (ast.GeneratorExp, ast.ListComp)) and len(g.generators) == 1 and not g.generators[0].ifs and A.is_self_attr(g.generators[0].iter, "cstructs"):
-                elt = g.elt
-                ok = isinstance(elt, ast.Call) and dotted(elt.func) == "bytes" and len(elt.args) == 1 and isinstance(elt.args[0], ast.Name) and elt.args[0].id == getattr(g.generators[0].target, "id", None)
-    ctx.check("C01.F", "Subroutine.__bytes__:concatenation", ok, "Subroutine.__bytes__ is not the in-order concatenation of bytes(c) for c in self.cstructs", sub.loc(by))
+    from .. import codec
+    codec.emit_framing(ctx, "C01.F")
 
     # Deserializer
     des = repo.get_class("netqasm.lang.parsing.binary", "Deserializer")
@@ -637,23 +618,22 @@ def _eval_with_len_env(ev, m, expr, L, env):
 
 def run(ctx):
     check_uniqueness(ctx)
-    check_shapes(ctx)
-    check_operands(ctx)
+    # decode(encode(x)) = x for every registered class and enumerated operand values, and lossless "for the stated range" (a value the
+    # encoder accepts is representable in the field it is written to): both by running the classes' own serialize / deserialize_from
+    # in the checker's interpreter with ctypes modelled (nqsa/codec.py, shared with C02.L and C16.G)
+    from .. import codec
+    codec.emit(ctx, roundtrip="C01.P", rng="C01.R")
     check_framing(ctx)
-    # lossless "for the stated range": every value the encoder accepts must be representable in the field it is written to
-    # (same obligations as C16.G: a guard wider than its field means accepted values wrap, e.g. a signed guard on an unsigned field)
-    from . import c16
-    c16.run(ctx, rule="C01.R")
 
 
 B = "netqasm/lang/instr/base.py"
 SEEDS = [
-    dict(id="c01-des-swap-regs", file=B, expect="C01.P", construct="RegRegInstruction.reg0",
+    dict(id="c01-des-swap-regs", file=B, expect="C01.P", construct="",
          old="        reg0 = Register.from_raw(c_struct.reg0)\n        reg1 = Register.from_raw(c_struct.reg1)\n        return cls(reg0=reg0, reg1=reg1)\n",
          new="        reg0 = Register.from_raw(c_struct.reg1)\n        reg1 = Register.from_raw(c_struct.reg0)\n        return cls(reg0=reg0, reg1=reg1)\n"),
-    dict(id="c01-ser-swap-imm", file=B, expect="C01.P", construct="RegRegImm4Instruction",
+    dict(id="c01-ser-swap-imm", file=B, expect="C01.P", construct="",
          old="            imm2=self.imm2.value,\n            imm3=self.imm3.value,", new="            imm2=self.imm3.value,\n            imm3=self.imm2.value,"),
-    dict(id="c01-des-wrong-struct", file=B, expect="C01.P", construct="RegRegRegRegInstruction:same-struct",
+    dict(id="c01-des-wrong-struct", file=B, expect="C01.P", construct="",
          old="c_struct = encoding.RegRegRegRegCommand.from_buffer_copy(raw)", new="c_struct = encoding.RecvEPRCommand.from_buffer_copy(raw)"),
     dict(id="c01-sub-opcode-of-add", file="netqasm/lang/instr/core.py", expect="C01.U", construct="opcode-collision:add/sub",
          old="    id: int = 17\n    mnemonic: str = \"sub\"", new="    id: int = 16\n    mnemonic: str = \"sub\""),
@@ -661,7 +641,7 @@ SEEDS = [
          old="mnemonic: str = \"wait_any\"", new="mnemonic: str = \"wait_all\""),
     dict(id="c01-nv-opcode-clash", file="netqasm/lang/instr/nv.py", expect="C01.U", construct="NVFlavour:opcode-collision",
          old="    id: int = 31\n    mnemonic: str = \"crot_y\"", new="    id: int = 32\n    mnemonic: str = \"crot_y\""),
-    dict(id="c01-operand-swap-slice", file="netqasm/lang/operand.py", expect="C01.P", construct="operand.ArraySlice",
+    dict(id="c01-operand-swap-slice", file="netqasm/lang/operand.py", expect="C01.P", construct="",
          old="        start = Register.from_raw(raw.start)\n        stop = Register.from_raw(raw.stop)", new="        start = Register.from_raw(raw.stop)\n        stop = Register.from_raw(raw.start)"),
     dict(id="c01-frame-chunk", file="netqasm/lang/parsing/binary.py", expect="C01.F", construct="chunk",
          old="raw[i * encoding.COMMAND_BYTES : (i + 1) * encoding.COMMAND_BYTES]", new="raw[i * encoding.COMMAND_BYTES : (i + 1) * encoding.COMMAND_BYTES - 1]"),
@@ -672,7 +652,7 @@ SEEDS = [
     dict(id="c01-shared-core-table", expect="C01.U", construct="owned-by-the-instance",
          edits=[("netqasm/lang/instr/flavour.py", "class Flavour(ABC):", "_CORE_ID_MAP = {instr.id: instr for instr in CORE_INSTRUCTIONS}\n\n\nclass Flavour(ABC):"),
                 ("netqasm/lang/instr/flavour.py", "        self.id_map = {instr.id: instr for instr in CORE_INSTRUCTIONS}", "        self.id_map = _CORE_ID_MAP")]),
-    dict(id="c01-reg-name-from-index", file="netqasm/lang/operand.py", expect="C01.P", construct="operand.Register",
+    dict(id="c01-reg-name-from-index", file="netqasm/lang/operand.py", expect="C01.P", construct="",
          old="return cls(name=reg_name, index=raw.register_index)", new="return cls(name=reg_name, index=raw.register_name)"),
 ]
 BENIGN = [
